@@ -79,12 +79,13 @@ class QueueGen:
                 for seq in itertools.product("ep", repeat=n):
                     ops = [f"new cap={cap}"]
                     v = 10
-                    for s in seq:
+                    big = [0, 2**32, 2**31, 2**63, 2**64 - 40]      # values 2^31 / 2^32 / 2^63 apart, near 2^64-1
+                    for j, s in enumerate(seq):
                         if s == "e":
                             v += 1
-                            ops.append(f"enqueue {v}")
+                            ops.append(f"enqueue {v + big[(v + n) % len(big)]}")
                         else:
-                            ops.append("poll")
+                            ops.append("poll" + (" noout=1" if (j + n) % 2 else ""))    # with and without out-pointer
                     ops += ["peek", "destroy"]
                     out.append(ops)
         # every (capacity, front offset, size) layout: iterate, replace, zip
@@ -243,7 +244,7 @@ class QueueGen:
                 else:
                     if q.items:
                         q.items.pop()
-                    ops.append("poll" + (" noout=1" if rng.random() < 0.1 else ""))
+                    ops.append("poll" + (" noout=1" if rng.random() < 0.3 else ""))
                 if rng.random() < 0.05:
                     p_enq = rng.choice([0.1, 0.5, 0.9])
             ops.append("destroy_cb" if rng.random() < 0.1 else "destroy")
